@@ -111,7 +111,7 @@ def _run(fn, cfg, sched, ch, **kw):
     c = dict(cfg)
     if kw.get("cores_override") is not None:
         c["cores"] = kw["cores_override"]
-    res.cfg_key = "%d.%d.%s.%s.%s.%s" % (c["rows"], c["cols"], c["grid"][0], c["box"][0], c["cores"], c["nslice"])
+    res.cfg_key = "%d.%d.%s.%s.%s/%s.%s" % (c["rows"], c["cols"], c["grid"][0], c["box"][0], c["cores"], c.get("ncpu"), c["nslice"])
     return res
 
 
@@ -216,7 +216,7 @@ def case(ch):
     for i in range(nvar):
         sched = bw.gen_sched(ch, hot, line)
         cores2 = None
-        if cfg["nslice"] is not None and cfg["cores"] > 1 and ch.chance("vary_cores", 1, 2):
+        if cfg["nslice"] is not None and cfg["cores"] is not None and cfg["cores"] > 1 and ch.chance("vary_cores", 1, 2):
             cores2 = max(2, nstripes) + ch.draw("cores2", 5)
         fill = "zeros" if ch.chance("fill_zero", 1, 4) else "payload"
         plan = None
